@@ -81,7 +81,7 @@ theorem vis_recover (b kp e : Nat) (hb16 : 16 ≤ b) (hb : b ≤ 49) (hkp : kp <
   rw [recover_testBit b kp e hb16 hb hkp hpk]
   simp [hj]
 
-theorem recover_lt (b kp e : Nat) (hb16 : 16 ≤ b) (hb : b ≤ 49) (hkp : kp < 2 ^ 64)
+theorem recover_of_key_lt (b kp e : Nat) (hb16 : 16 ≤ b) (hb : b ≤ 49) (hkp : kp < 2 ^ 64)
     (hpk : Entry.partial_key e b = Entry.extract_key kp b) :
     recover_index_key b (chunk_index b kp) e < 2 ^ 64 := by
   apply Nat.lt_pow_two_of_testBit
@@ -96,7 +96,7 @@ theorem total_chunks_eq (b : Nat) (hb : b ≤ 49) : total_chunks b = 2 ^ b := by
   rw [Nat.mod_eq_of_lt (by omega : b < 64), Nat.one_shiftLeft,
     Nat.mod_eq_of_lt (Nat.pow_lt_pow_right (by omega) (by omega))]
 
-theorem partial_key_lt (e b : Nat) (hb : b ≤ 49) (he : e < 2 ^ 64) :
+theorem partial_key_lt50 (e b : Nat) (hb : b ≤ 49) (he : e < 2 ^ 64) :
     Entry.partial_key e b < 2 ^ (50 - b) := by
   rw [partial_key_plain e b hb, Nat.shiftRight_eq_div_pow,
     Nat.div_lt_iff_lt_mul (Nat.two_pow_pos _), ← Nat.pow_add]
@@ -110,7 +110,7 @@ theorem recover_inv (b c e : Nat) (hb16 : 16 ≤ b) (hb : b ≤ 49) (hc : c < to
     recover_index_key b c e < 2 ^ 64 ∧ chunk_index b (recover_index_key b c e) = c ∧
       Entry.extract_key (recover_index_key b c e) b = Entry.partial_key e b := by
   rw [total_chunks_eq b hb] at hc
-  have hpk := partial_key_lt e b hb he
+  have hpk := partial_key_lt50 e b hb he
   have hcb : ∀ i, b ≤ i → c.testBit i = false := fun i hi =>
     Nat.testBit_lt_two_pow (Nat.lt_of_lt_of_le hc (Nat.pow_le_pow_right (by omega) hi))
   have hpb : ∀ i, 50 - b ≤ i → (Entry.partial_key e b).testBit i = false := fun i hi =>
